@@ -15,6 +15,7 @@ import (
 	"strings"
 
 	"github.com/nspcc-dev/neofs-node/pkg/local_object_storage/shard/mode"
+	"github.com/nspcc-dev/neofs-node/pkg/local_object_storage/writecache"
 	"github.com/nspcc-dev/neofs-node/verif/lib/ev"
 	"github.com/nspcc-dev/neofs-node/verif/lib/sched"
 	ss "github.com/nspcc-dev/neofs-node/verif/worlds/schedshard"
@@ -38,16 +39,24 @@ type cfg struct {
 
 type result struct {
 	Acked, DelStarted map[int]bool
-	Bad               []string
-	NotInBlob         []int
-	Unreadable        []int
-	Faults            int
-	Finished          bool
-	PutErrs           []string
-	Reads             int
+	DelDone           map[int]bool
+	Reputs            int
+	Ev                []string
+	// FlushWrittenBeforeRemoval: a background blobstor write had completed when a removal deleted from the blobstor
+	FlushWrittenBeforeRemoval bool
+	Bad                       []string
+	NotInBlob                 []int
+	NotInBlobAtReturn         []int
+	FlushDuringBGWrite        bool
+	Unreadable                []int
+	Faults                    int
+	Finished                  bool
+	PutErrs                   []string
+	Reads                     int
 }
 
 var freeBound = 1
+var dbg = os.Getenv("VERIF_DEBUG") != ""
 
 func scenario(c cfg) sched.Scenario {
 	body := func(s *sched.S) any {
@@ -56,7 +65,7 @@ func scenario(c cfg) sched.Scenario {
 			panic(err)
 		}
 		defer os.RemoveAll(root)
-		res := &result{Acked: map[int]bool{}, DelStarted: map[int]bool{}}
+		res := &result{Acked: map[int]bool{}, DelStarted: map[int]bool{}, DelDone: map[int]bool{}}
 		s.Result = res
 		w, err := ss.New(s, root, ss.Opts{WriteCache: true, Workers: c.workers})
 		if err != nil {
@@ -77,10 +86,20 @@ func scenario(c cfg) sched.Scenario {
 		}
 		putDone := map[int]bool{}
 		flushedOK := map[int]bool{} // acknowledged before an explicit flush that returned nil
-		blobWrites := 0
+		blobWrites, blobWritesDone := 0, 0
 		w.OnStep = func(l string) {
 			if l == "blob.Put" || l == "blob.PutBatch" {
 				blobWrites++
+			}
+			if l == "blob.Put.done" || l == "blob.PutBatch.done" {
+				blobWritesDone++
+			}
+			if dbg && strings.HasPrefix(l, "blob.") {
+				res.Ev = append(res.Ev, l)
+			}
+			if l == "blob.Delete" {
+				// how far the flusher was when the removal reached the blobstor (mechanism of a later loss)
+				res.FlushWrittenBeforeRemoval = blobWritesDone > 0
 			}
 		}
 		read := func(i int, viaBytes bool) {
@@ -124,6 +143,30 @@ func scenario(c cfg) sched.Scenario {
 						read(i, true)
 					case "wait-blob-write":
 						s.Block("wait blob write", func() bool { return blobWrites > 0 || s.TimerFires <= 0 })
+					case "wait-marked":
+						// until the flush scheduler has marked object i as being processed (a batch with it is formed)
+						s.Block("wait marked", func() bool {
+							return writecache.VerifFlushMarked(w.Sh.VerifSSWriteCache(), ss.Addr(i)) || s.TimerFires <= 0
+						})
+						if dbg {
+							res.Ev = append(res.Ev, fmt.Sprintf("marked=%v", writecache.VerifFlushMarked(w.Sh.VerifSSWriteCache(), ss.Addr(i))))
+						}
+					case "reput":
+						// a new upload of an object whose deletion has returned: a fresh observation window
+						if !res.DelDone[i] {
+							continue
+						}
+						res.Acked[i] = false
+						res.DelStarted[i] = false
+						res.Reputs++
+						if err := w.Sh.Put(ss.Obj(i, c.sizes[i]), nil); err == nil {
+							res.Acked[i] = true
+						} else {
+							res.PutErrs = append(res.PutErrs, err.Error())
+						}
+						if dbg {
+							res.Ev = append(res.Ev, "reput.done")
+						}
 					case "wait":
 						s.Block("wait put", func() bool { return putDone[i] })
 					case "delete":
@@ -133,14 +176,34 @@ func scenario(c cfg) sched.Scenario {
 						}
 						res.DelStarted[i] = true
 						w.Sh.Delete(ss.Cnr, []oid.ID{ss.OID(i)})
+						res.DelDone[i] = true
+						if dbg {
+							res.Ev = append(res.Ev, "del.done")
+						}
 					case "flush":
 						before := map[int]bool{}
+						if blobWrites > blobWritesDone {
+							res.FlushDuringBGWrite = true
+						}
 						for k, v := range res.Acked {
 							before[k] = v
 						}
-						if err := w.Sh.FlushWriteCache(false); err == nil {
+						err := w.Sh.FlushWriteCache(false)
+						if os.Getenv("VERIF_DEBUG") != "" && res.FlushDuringBGWrite {
+							_, e2 := w.FST.GetBytes(ss.Addr(0))
+							fmt.Fprintf(os.Stderr, "DBG flush err=%v faults=%d before=%v inblob0=%v bw=%d bwd=%d\n", err, res.Faults, before, e2 == nil, blobWrites, blobWritesDone)
+						}
+						if err == nil {
 							for k := range before {
 								flushedOK[k] = true
+								// "after a flush the object is in blob storage": judged at the moment the flush
+								// returns, not only at quiescence (a background worker may finish the job later)
+								if res.DelStarted[k] {
+									continue
+								}
+								if b, err := w.FST.GetBytes(ss.Addr(k)); err != nil || !bytes.Equal(b, objs[k]) {
+									res.NotInBlobAtReturn = append(res.NotInBlobAtReturn, k)
+								}
 							}
 						}
 					case "setmode-ro-rw":
@@ -164,6 +227,9 @@ func scenario(c cfg) sched.Scenario {
 			}
 		}
 		res.Finished = true
+		if dbg && res.Reputs > 0 {
+			fmt.Fprintf(os.Stderr, "DBG %s | %v\n", c.name[:40], res.Ev)
+		}
 		return res
 	}
 	check := func(x *sched.Exec) (string, string) {
@@ -184,7 +250,19 @@ func scenario(c cfg) sched.Scenario {
 			return strings.SplitN(res.Bad[0], ":", 2)[0] + ":between-put-ack-and-delete", strings.Join(res.Bad, "; ")
 		}
 		if len(res.Unreadable) > 0 {
-			return "unreadable-at-quiescence", fmt.Sprintf("%+v", res)
+			fp := "unreadable-at-quiescence"
+			if res.Reputs > 0 {
+				// uploaded again after its removal returned, then lost: tell the two mechanisms apart
+				if res.FlushWrittenBeforeRemoval {
+					fp += ":uploaded-again-after-removal:flusher-wrote-it-before-the-removal-and-dropped-the-new-cache-copy-afterwards"
+				} else {
+					fp += ":uploaded-again-after-removal:flusher-had-not-written-it-before-the-removal"
+				}
+			}
+			return fp, fmt.Sprintf("%+v", res)
+		}
+		if len(res.NotInBlobAtReturn) > 0 {
+			return "not-in-blobstor-when-successful-explicit-flush-returned", fmt.Sprintf("%+v", res)
 		}
 		if len(res.NotInBlob) > 0 {
 			return "not-in-blobstor-after-successful-explicit-flush", fmt.Sprintf("%+v", res)
@@ -196,7 +274,14 @@ func scenario(c cfg) sched.Scenario {
 		if res == nil || !res.Finished {
 			return "aborted"
 		}
-		return fmt.Sprintf("faults=%d reads=%d deleted=%d", res.Faults, res.Reads, len(res.DelStarted))
+		o := fmt.Sprintf("faults=%d reads=%d deleted=%d", res.Faults, res.Reads, len(res.DelStarted))
+		if res.Reputs > 0 {
+			o += fmt.Sprintf(" reputs=%d", res.Reputs)
+		}
+		if res.FlushDuringBGWrite {
+			o += " explicit-flush-began-during-a-background-blobstor-write"
+		}
+		return o
 	}
 	return sched.Scenario{Name: c.name, Opt: sched.Options{PreemptBound: c.pre, FaultBound: c.flt, FreeBound: freeBound, MaxSteps: 8000,
 		Setup: func(s *sched.S) { s.TimerFires = c.ticks }}, Body: body, Check: check, Outcome: outcome}
@@ -205,10 +290,7 @@ func scenario(c cfg) sched.Scenario {
 func main() {
 	r := ev.Start("C16", ev.ModelChecking)
 	S, B := 4, 60
-	if r.Thorough() {
-		freeBound = 2
-	}
-	q := r.Quick()
+	q := true
 	b := func(quick, thorough int) int {
 		if q {
 			return quick
@@ -219,19 +301,35 @@ func main() {
 	g := func(i int) step { return step{"get", i} }
 	gb := func(i int) step { return step{"getbytes", i} }
 	wt := func(i int) step { return step{"wait", i} }
-	cfgs := []cfg{
-		{"put small, reader reads twice during background flush", []int{S}, [][]step{{p(0)}, {wt(0), g(0), gb(0)}}, 1, 4, b(1, 2), b(1, 1), false},
-		{"put small + big, reader of the big one, blobstor may fail", []int{S, B}, [][]step{{p(0), p(1)}, {wt(1), gb(1), g(1)}}, 1, 4, b(1, 2), b(1, 2), false},
-		{"put small + big, reader starts when a blobstor write begins", []int{S, B}, [][]step{{p(0), p(1)}, {wt(1), {"wait-blob-write", 0}, gb(1), g(0)}}, 1, 4, b(1, 2), b(0, 1), false},
-		{"put, explicit flush, reader", []int{S}, [][]step{{p(0), {"flush", 0}}, {wt(0), gb(0), g(0)}}, 1, 3, b(1, 2), b(1, 1), false},
-		{"put, mode switch ro->rw, reader", []int{S}, [][]step{{p(0), {"setmode-ro-rw", 0}}, {wt(0), gb(0), g(0)}}, 1, 3, b(1, 2), 0, true},
-		{"put two, delete one, reader of the other", []int{S, S + 1}, [][]step{{p(0), p(1)}, {{"delete", 0}}, {wt(1), gb(1)}}, 1, 4, b(1, 2), b(0, 1), false},
+	mk := func() []cfg {
+		return []cfg{
+			{"put small, reader reads twice during background flush", []int{S}, [][]step{{p(0)}, {wt(0), g(0), gb(0)}}, 1, 4, b(1, 2), b(1, 1), false},
+			{"put small + big, reader of the big one, blobstor may fail", []int{S, B}, [][]step{{p(0), p(1)}, {wt(1), gb(1), g(1)}}, 1, 4, b(1, 2), b(1, 2), false},
+			{"put small + big, reader starts when a blobstor write begins", []int{S, B}, [][]step{{p(0), p(1)}, {wt(1), {"wait-blob-write", 0}, gb(1), g(0)}}, 1, 4, b(1, 2), b(0, 1), false},
+			{"put, explicit flush, reader", []int{S}, [][]step{{p(0), {"flush", 0}}, {wt(0), gb(0), g(0)}}, 1, 3, b(1, 2), b(1, 1), false},
+			{"put, explicit flush once a background blobstor write has begun", []int{S}, [][]step{{p(0), {"wait-blob-write", 0}, {"flush", 0}}}, 1, 3, b(1, 2), b(1, 1), false},
+			{"put small + big, explicit flush once a background blobstor write has begun", []int{S, B}, [][]step{{p(0), p(1), {"wait-blob-write", 0}, {"flush", 0}}}, 1, 3, b(1, 2), b(0, 1), false},
+			{"put two (one batch), delete one once the batch is formed, upload it again once the batch is being written", []int{S, S + 1}, [][]step{{p(0), p(1)}, {wt(1), {"wait-marked", 0}, {"delete", 0}, {"wait-blob-write", 0}, {"reput", 0}}}, 1, 5, b(1, 2), 0, false},
+			{"put two (one batch), delete one and upload it again once the batch is being written", []int{S, S + 1}, [][]step{{p(0), p(1)}, {wt(1), {"wait-blob-write", 0}, {"delete", 0}, {"reput", 0}}}, 1, 5, b(1, 2), 0, false},
+			{"put big, delete it and upload it again once it is being written", []int{B}, [][]step{{p(0)}, {wt(0), {"wait-blob-write", 0}, {"delete", 0}, {"reput", 0}}}, 1, 5, b(1, 2), 0, false},
+			{"put, mode switch ro->rw, reader", []int{S}, [][]step{{p(0), {"setmode-ro-rw", 0}}, {wt(0), gb(0), g(0)}}, 1, 3, b(1, 2), 0, true},
+			{"put two, delete one, reader of the other", []int{S, S + 1}, [][]step{{p(0), p(1)}, {{"delete", 0}}, {wt(1), gb(1)}}, 1, 4, b(1, 2), b(0, 1), false},
+		}
 	}
 	var scs []sched.Scenario
-	for _, c := range cfgs {
+	for _, c := range mk() {
 		scs = append(scs, scenario(c))
 	}
-	r.Rule("every schedule within the preemption bound x every set of failing blobstor writes within the fault bound of 5 closed scenarios on a real shard with write-cache, run to quiescence; non-trivial = distinct (scenario, faults, reads, deletes) outcome classes")
+	if r.Thorough() {
+		// the deeper bounds come after the quick ones: the budget is shared per scenario and what the
+		// cheap ones leave over rolls on to the deep ones
+		q, freeBound = false, 2
+		for _, c := range mk() {
+			c.name += " [deep]"
+			scs = append(scs, scenario(c))
+		}
+	}
+	r.Rule("every schedule within the preemption bound x every set of failing blobstor writes within the fault bound of 11 closed scenarios on a real shard with write-cache, run to quiescence (quick: <=1 preemption, <=1 non-default forced switch; thorough: the same, then each scenario again with <=2 / <=2 as far as its share of the budget reaches); non-trivial = distinct (scenario, faults, reads, deletes) outcome classes")
 	r.Assume("atomics are not scheduling points", "flush ticker/GC timer fire a bounded number of times", "bbolt transactions are atomic steps (metabase calls are scheduling points at entry)")
 	sched.Main(r, scs, 0)
 }
